@@ -42,4 +42,51 @@ CHECKS = {
   "note": ASSUME + "8-bit backward frames; Frame.__add__ concatenates left "
           "operand high (C05)."},
 }
+ "C06": {
+  "technique": "abstract interpretation of response classes over "
+               "{None, Clean, Err} x byte subsets; exception-escape analysis "
+               "with evaluated except clauses; partial evaluation of the "
+               "bit-dictionary metaclass",
+  "text": "For all 34 response classes reachable from a command and each "
+          "of the three bus outcomes, raw_value/value/status/__getattr__/"
+          "__str__ are abstractly interpreted through the MRO with class "
+          "constants folded; a path carries the subset of the 256 byte "
+          "values it covers, so each verdict (family contract of value, "
+          "raw_value identity, no MissingResponse/ResponseError out of "
+          "__str__, named bit k reads frame bit k) holds for every answer.  "
+          "The numeric identity of Frame.as_integer is C05's, not decided "
+          "here.",
+  "note": ASSUME + "A BackwardFrame is truthy (Frame.__len__ == 8); "
+          "IntEnum(value) raises ValueError for undefined codes; `except A "
+          "or B` is evaluated as Python does (catches A)."},
+ "C13": {
+  "technique": "generator-CFG dataflow (guard symmetry after copy "
+               "propagation, byte-lane provenance, response discipline, "
+               "path enumeration with condition pruning), constant folding "
+               "of the scan-range normalisation",
+  "text": "Proves on the CFGs of the control-device sequences: DTRk load "
+          "guard == read-back guard == (width > 8k) with little-endian "
+          "lanes both ways; no .value read without check_bad_rsp; resolved "
+          "command order on every feasible path and validation before the "
+          "first yield; discovery scan bracketed by quiescent mode with "
+          "skip-on-bad and add_type only for the current address/instance; "
+          "the default scan range folds to all 64 addresses.  The "
+          "shift/accumulate arithmetic of query_input_value is a value "
+          "property and is not decided.",
+  "note": ASSUME + "check_bad_rsp's own classification is checked "
+          "structurally (R-BADRSP)."},
+ "C14": {
+  "technique": "generator-CFG path enumeration, byte-lane provenance "
+               "evaluator, must-dataflow of isinstance guards",
+  "text": "Proves for the three DT8 sequences, on every path: exact order "
+          "of resolved commands (DTR0, DTR1[, DTR2] before the device-type-8 "
+          "command, Activate after; query order), low byte -> DTR0 and high "
+          "byte -> DTR1 (idiom-normalised), reassembly msb*256+lsb from the "
+          "right answers, the range-limiting operation / selector type "
+          "check before the first yield, None on every unclean path.  For "
+          "these straight-line generators this covers the statement of C14 "
+          "up to the unit's own behaviour.",
+  "note": ASSUME + "int.to_bytes(2, order) raises outside 0..65535; "
+          "NumericResponse.value is an int exactly for a clean frame (C06)."},
+}
 NA = {}
